@@ -775,13 +775,15 @@ func (p *pool) decodeFresh(format string, data []byte) outcome {
 		return outcome{Cls: clsCrash, Msg: "cannot start decoding process: " + err.Error()}
 	}
 	p.iso.RLock()
-	o, ok := p.roundTrip(w, format, data, true, kindAll, 1)
+	// three reader kinds (in-memory, opaque, file): the peak of resident memory is judged, and eight decodes that each
+	// allocate by the announced count would add up in one process
+	o, ok := p.roundTrip(w, format, data, true, kindBig, 1)
 	p.iso.RUnlock()
 	if ok {
 		w.kill()
 	}
 	if o.Starved || o.Over {
-		o = p.retryAlone(format, data, true, kindAll)
+		o = p.retryAlone(format, data, true, kindBig)
 	}
 	return o
 }
